@@ -1,4 +1,5 @@
 import RjModel.Lemmas.ListingLemmas
+import RjModel.Lemmas.FilteredListing
 import RjModel.Lemmas.WalkerLemmas
 import RjModel.Generated.Walker
 /-! # C17 — the directory walk lists every included entry exactly once and always finishes -/
@@ -96,5 +97,45 @@ theorem C17_getentries_is_listing (fs : FS) (abs : List Comp) (root : FPath) (f 
     listDir fs abs (fun _ => true) root f dir =
       ((listNodes fs f dir).map fun e => (relString root e.1, detOr fs abs e), []) :=
   listDir_eq_listNodes fs abs root f dir hgood
+
+/-- **Every *included* entry exactly once, folders before their contents, excluded folders not entered** — the
+listing under filters (`listNodesF`; `keep` judges the path relative to the root `r`, which lies at or above `dir`):
+it reports a node iff the node is reachable through real folders **and it and every ancestor below `dir` are kept**
+(so nothing beneath an excluded folder, whatever the filters say about it); it is a sub-list of the unfiltered
+listing, hence parents first and without repetition. -/
+theorem C17_listing_exact_filtered (keep : FPath → Bool) (r : FPath) (fs : FS) (hw : fs.Wf) (f : Nat) (dir : FPath) :
+    (∀ p n, (p, n) ∈ listNodesF keep r fs f dir → fs.get p = some n ∧ dir <+: p ∧ p ≠ dir ∧
+      ∀ k, dir.length < k → k ≤ p.length → keep ((p.take k).drop r.length) = true) ∧
+    (∀ rest n, rest ≠ [] → rest.length ≤ f → fs.get (dir ++ rest) = some n →
+      (∀ k, 0 < k → k < rest.length → fs.get (dir ++ rest.take k) = some .folder) →
+      (∀ k, 0 < k → k ≤ rest.length → keep ((dir ++ rest.take k).drop r.length) = true) →
+      (dir ++ rest, n) ∈ listNodesF keep r fs f dir) ∧
+    (listNodesF keep r fs f dir).Pairwise (fun a b => ¬ b.1 <+: a.1) ∧
+    ((listNodesF keep r fs f dir).map (·.1)).Nodup := by
+  have hsub := listNodesF_sublist keep r fs f dir
+  obtain ⟨-, -, hpf, hnd⟩ := C17_listing_exact_fs fs hw f dir
+  refine ⟨fun p n h => ?_, fun rest n h1 h2 h3 h4 h5 => listNodesF_complete keep r fs f dir rest n h1 h2 h3 h4 h5,
+    hpf.sublist hsub, hnd.sublist (hsub.map _)⟩
+  obtain ⟨a, b, c, -⟩ := listNodes_sound fs hw f dir p n (hsub.subset h)
+  exact ⟨a, b, c, listNodesF_kept keep r fs hw f dir p n h⟩
+
+/-- **`GetEntries` with filters is that listing**: the doer model's walk — its filter judges the root-relative path
+*string* (`keep'`), the listing function the relative *component path* (`keep`), the two agreeing (`hkk`) — answers
+exactly the entries of `listNodesF`, each with its root-relative path and details, and no error (every entry
+reportable). -/
+theorem C17_getentries_is_filtered_listing (fs : FS) (abs : List Comp) (keep' : String → Bool) (keep : FPath → Bool)
+    (root : FPath) (hkk : ∀ p, keep' (relString root p) = keep (p.drop root.length)) (f : Nat) (dir : FPath)
+    (hgood : ∀ e ∈ listNodes fs f dir, Reportable fs abs e) :
+    listDir fs abs keep' root f dir =
+      ((listNodesF keep root fs f dir).map fun e => (relString root e.1, detOr fs abs e), []) :=
+  listDir_eq_listNodesF fs abs keep' keep root hkk f dir hgood
+
+/-- non-vacuity: `-b` hides `b` and with it `b/x` (which `+b/x` alone would let through); `a` stays -/
+example :
+    let fs : FS := ⟨[([['a']], .folder), ([['b']], .folder), ([['b'], ['x']], .file [] (.at 0)), ([['a'], ['y']], .file [] (.at 0))]⟩
+    let keep : FPath → Bool := fun p => p != [['b']]
+    (listNodesF keep [] fs 3 []).map (·.1) = [[['a']], [['a'], ['y']]] ∧
+    (listNodes fs 3 []).map (·.1) = [[['a']], [['a'], ['y']], [['b']], [['b'], ['x']]] := by
+  decide
 
 end Rj.C17
